@@ -7,5 +7,5 @@ CONSTANTS
  Alphabet <- AlphaGauge
  FineCas = FALSE
  Retry = TRUE
-INVARIANTS TypeOK IncOnlySum AbsMonotone AbsFloor NoLostUpdate SetExact ExactlyN NoValueDisables
+INVARIANTS TypeOK IncOnlySum AbsMonotone AbsFloor NoLostUpdate SetExact ExactlyN 
 CHECK_DEADLOCK FALSE
